@@ -160,6 +160,11 @@ pub fn assign<B: Build, const CAP: usize>() {
     if ok {
         assert!(d1.ok() && d1.c.eq(&want), "a successful assignment stores the new content");
     } else {
+        if B::nested_refusal(&v, n) {
+            // recorded as known finding D17 (known_findings.json): reported under its own name
+            assert!(<B::T>::validate(s).is_ok() && d1.ok(), "[D17] nested unsized enum: inner initialiser refused after the outer tag was written; target still validates");
+            return;
+        }
         assert!(<B::T>::validate(s).is_ok(), "after a failed assignment the target still validates");
         assert!(d1.ok(), "after a failed assignment the target is still well formed");
         if !B::fits_static(&v, n) {
@@ -252,6 +257,7 @@ em!(U_S4, 9, 11);
 em!(U_PS, 12, 14);
 em!(U_E1, 20, 22);
 em!(U_E5, 20, 22);
+em!(U_E6, 8, 10);
 em!(X_U8P, 10, 12);
 em!(U_E2, 7, 9);
 em!(U_E3, 10, 12);
@@ -276,6 +282,7 @@ asg!(U_S2, U_S2_a, 12, 14);
 asg!(U_S3, U_S3_a, 6, 8);
 asg!(U_E1, U_E1_a, 16, 18);
 asg!(U_E5, U_E5_a, 16, 18);
+asg!(U_E6, U_E6_a, 7, 9);
 asg!(U_E2, U_E2_a, 6, 8);
 asg!(U_E3, U_E3_a, 10, 12);
 asg!(U_E4, U_E4_a, 12, 14);
